@@ -92,7 +92,7 @@ pub fn staircase_trials(run: &E1Run, tr: &Trace) -> (Vec<Trial>, usize) {
 }
 
 fn stair_space(n: usize, salt: u64) -> ParamSpec {
-    ParamSpec { n, salt, range_mode: "unit".into(), start_mode: "interior".into(), zero_width: 0.0 }
+    ParamSpec { n, salt, range_mode: "unit".into(), start_mode: "interior".into(), zero_width: 0.0, outside: 0.0 }
 }
 
 // ---------------------------------------------------------------------------------------------
@@ -134,6 +134,9 @@ impl C07 {
             .set("salt", J::uint(rng.next_u64() >> 12))
             .set("base_seed", J::uint(rng.below(1 << 40)))
             .set("trials_target", J::uint(trials_target))
+            // a convergence threshold must not influence acceptance (it may end a run early,
+            // which only means that more runs are pooled)
+            .set("convergence", J::opt_f64bits(*rng.pick(&[None, Some(1e-12), Some(1e-3)])))
     }
 
     fn exec_stat(&self, j: &J) -> Result<RunOut, String> {
@@ -146,6 +149,7 @@ impl C07 {
         let salt = j.get("salt").and_then(|x| x.as_u64()).ok_or("salt")?;
         let base_seed = j.get("base_seed").and_then(|x| x.as_u64()).ok_or("base_seed")?;
         let target = j.get("trials_target").and_then(|x| x.as_u64()).ok_or("trials_target")?;
+        let conv = j.get("convergence").and_then(|x| x.as_f64bits());
         let d = ratio * kt;
         let ps = stair_space(n, salt);
         let mut ls = LandSpec::simple("staircase", salt);
@@ -163,8 +167,10 @@ impl C07 {
                 kt_finish: None,
                 kt_ratio: Some(0.0),
                 max_step,
-                convergence: None,
+                convergence: conv,
                 seed: base_seed + runs,
+                order: 0,
+                prior: None,
             };
             let run = run_e1(&ps, &ls, &cfg)?;
             if let Some(p) = &run.panic {
@@ -215,7 +221,6 @@ impl C07 {
         } else {
             cfg.inner = cfg.steps + rng.below(3);
         }
-        cfg.convergence = None;
         cap_for_n(&ps, &mut cfg);
         let pre = gen_prelude(rng);
         with_prelude(scen(&ps, &ls, &cfg), pre).set("mode", J::str("clauses"))
@@ -372,6 +377,16 @@ impl C18 {
             .set("salt", J::uint(rng.next_u64() >> 12))
             .set("base_seed", J::uint(rng.below(1 << 40)))
             .set("trials_per_loop_target", J::uint(per_loop_target))
+            .set("builder_order", J::uint(if rng.chance(0.5) { 1 + rng.below(1 << 20) } else { 0 }))
+            .set(
+                "builder_prior",
+                if rng.chance(0.4) {
+                    let (a, b) = *rng.pick(&[(1u64, 1u64), (1, 1), (10, 7), (100_000, 100_000)]);
+                    J::Arr(vec![J::uint(a), J::uint(b)])
+                } else {
+                    J::Null
+                },
+            )
     }
 }
 
@@ -417,6 +432,8 @@ impl Check for C18 {
         let salt = j.get("salt").and_then(|x| x.as_u64()).ok_or("salt")?;
         let base_seed = j.get("base_seed").and_then(|x| x.as_u64()).ok_or("base_seed")?;
         let target = j.get("trials_per_loop_target").and_then(|x| x.as_u64()).ok_or("target")?;
+        let b_order = j.get("builder_order").and_then(|x| x.as_u64()).unwrap_or(0);
+        let b_prior = j.get("builder_prior").and_then(|a| a.as_arr()).and_then(|a| Some((a.get(0)?.as_u64()?, a.get(1)?.as_u64()?)));
         let inner_eff = inner.min(steps).max(1);
         let loops = steps / inner_eff;
         if loops == 0 {
@@ -475,6 +492,8 @@ impl Check for C18 {
                 max_step,
                 convergence: None,
                 seed: base_seed + runs,
+                order: b_order,
+                prior: b_prior,
             };
             let run = run_e1(&ps, &ls, &cfg)?;
             if run.panic.is_some() {
@@ -667,6 +686,8 @@ pub fn gen_c20_e1(rng: &mut Rng, _tier: Tier) -> J {
         max_step: *rng.pick(&[0.0, 1e-3, 0.01, 0.1, 1.0]),
         convergence: *rng.pick(&[None, Some(0.0), Some(1e-9), Some(1e-3), Some(1e9)]),
         seed: rng.below(1 << 32),
+        order: if rng.chance(0.5) { 1 + rng.below(1 << 20) } else { 0 },
+        prior: if rng.chance(0.25) { Some((*rng.pick(&[1u64, 10, 100_000]), *rng.pick(&[1u64, 7, 100_000]))) } else { None },
     };
     cap_for_n(&ps, &mut cfg);
     let pre = gen_prelude(rng);
